@@ -25,10 +25,10 @@ VERIF = os.path.dirname(os.path.dirname(os.path.abspath(__file__)))
 SCR = "/tmp/automut"
 
 CHECKS = {
-    "cmb_event.c": ["C01", "C04"], "cmi_hashheap.c": ["C02", "C01"], "cmb_process.c": ["C04", "C09"],
-    "cmb_resourceguard.c": ["C06", "C08", "C13"], "cmb_resource.c": ["C05", "C14"],
-    "cmb_resourcepool.c": ["C07", "C14"], "cmb_buffer.c": ["C11", "C14"],
-    "cmb_objectqueue.c": ["C12", "C14"], "cmb_priorityqueue.c": ["C12", "C14"], "cmb_condition.c": ["C13"],
+    "cmb_event.c": ["C01", "C04"], "cmi_hashheap.c": ["C02", "C01"], "cmb_process.c": ["C04", "C09", "C08"],
+    "cmb_resourceguard.c": ["C06", "C08", "C13"], "cmb_resource.c": ["C05", "C08", "C14"],
+    "cmb_resourcepool.c": ["C07", "C08", "C14"], "cmb_buffer.c": ["C11", "C08", "C14"],
+    "cmb_objectqueue.c": ["C12", "C08", "C14"], "cmb_priorityqueue.c": ["C12", "C08", "C14"], "cmb_condition.c": ["C13"],
     "cmb_datasummary.c": ["C17"], "cmb_wtdsummary.c": ["C17"], "cmb_dataset.c": ["C18", "C17"],
     "cmb_timeseries.c": ["C18", "C14"], "cmb_random.c": ["C16", "C15"], "cimba.c": ["C19"],
     "cmi_mempool.c": ["C20"], "cmi_coroutine.c": ["C03", "C09"], "cmi_holdable.c": ["C09"],
@@ -84,7 +84,7 @@ def candidates(fname):
 
 def main():
     a = sys.argv[1:]
-    n, seed, files, workers = 100, 1, sorted(CHECKS), "10"
+    n, seed, files, workers, retest = 100, 1, sorted(CHECKS), "10", False
     while a:
         k = a.pop(0)
         if k == "--n":
@@ -95,8 +95,14 @@ def main():
             files = a.pop(0).split(",")
         elif k == "--workers":
             workers = a.pop(0)
+        elif k == "--retest":
+            retest = True
     out_path = os.path.join(VERIF, "notes", "automut.json")
     results = json.load(open(out_path)) if os.path.exists(out_path) else {}
+    if retest:
+        # survivors (and errors) of earlier sweeps are tried again, e.g. after a generator was strengthened
+        for k in [k for k, v in results.items() if v["verdict"] != "caught"]:
+            del results[k]
     cands = []
     for f in files:
         cands += candidates(f)
